@@ -24,6 +24,8 @@ RULE = ("(a) Hypothesis RuleBasedStateMachine over HeapScheduler + ListScheduler
         "handlers), burn_counter (validity counter of a non-live handler preset to 2^32-k: the only white-box step), "
         "burst (70-300 pushes across the 64/128/256 reallocation sizes). Oracle after every get: returned handler "
         "is live in the model, its time equals the model minimum as (quotient, remainder), heap and list agree. "
+        "fork_twin: an unpickled copy of both schedulers is driven in lockstep with the live ones from then on and "
+        "must return the same handler at every get, also where several live events share the minimal time. "
         "(b) libFuzzer bytes -> insert/root/delete_events/entry on the raw C heap built with ASan+UBSan, in-target "
         "array model. Non-trivial: a machine run with a get after a trash of a non-minimal entry, or crossing a "
         "reallocation, or containing a pickle round trip or the overflow branch; fuzz: inputs reaching a new "
@@ -64,6 +66,7 @@ class SchedulerMachine(RuleBasedStateMachine):
         self.flags = set()
         self.heap_pushes = 0
         self.trashed_nonmin_since_get = False
+        self.twin = None         # (heap, list, handlers) unpickled from a dump of the primary, driven in lockstep
 
     # ---------------------------------------------------------------------------------------------- helpers
     def _time(self, kind, frac, dq):
@@ -86,6 +89,9 @@ class SchedulerMachine(RuleBasedStateMachine):
         time = self.Time(t[0], t[1])
         self.heap.push_event(time, h)
         self.lst.push_event(time, h)
+        if self.twin is not None:
+            self.twin[0].push_event(self.Time(t[0], t[1]), self.twin[2][idx])
+            self.twin[1].push_event(self.Time(t[0], t[1]), self.twin[2][idx])
         self.model[idx] = t
         if not math.isinf(t[0]):
             self.heap_pushes += 1
@@ -120,11 +126,28 @@ class SchedulerMachine(RuleBasedStateMachine):
         m = self._min()
         if m is not None and self.model[idx] != m:
             self.trashed_nonmin_since_get = True
+        self._trash_idx(idx)
+
+    def _trash_idx(self, idx):
         self.trace.append(("trash", idx))
         h = self.handlers[idx]
         self.heap.trash_event(h)
         self.lst.trash_event(h)
+        if self.twin is not None:
+            self.twin[0].trash_event(self.twin[2][idx])
+            self.twin[1].trash_event(self.twin[2][idx])
         del self.model[idx]
+
+    @precondition(lambda self: self.twin is None)
+    @rule()
+    def fork_twin(self):
+        """A dump is loaded in another process and both runs go on: from here on the unpickled schedulers receive the
+        same operations as the live ones and must return the same handlers - also where several events share the
+        minimal time (same contents, same validity of trashed entries, same order)."""
+        import dill
+        self.trace.append(("fork_twin",))
+        self.twin = dill.loads(dill.dumps((self.heap, self.lst, self.handlers)))
+        self.flags.add("twin")
 
     @rule()
     def get(self):
@@ -149,6 +172,14 @@ class SchedulerMachine(RuleBasedStateMachine):
                                     % h, {"trace": jsonable(self.trace)})
             # with only infinite events live the list scheduler may return one of them (allowed: never before a finite
             # one) and then regards the run as having reached time infinity; it is not asked in that state
+            if self.twin is not None:
+                try:
+                    h = self.twin[0].get_succeeding_event()
+                except SchedulerError:
+                    pass
+                else:
+                    raise Violation("stateful/unpickled-heap-differs", "the unpickled heap scheduler returned %r where "
+                                    "the original raised SchedulerError" % h, {"trace": jsonable(self.trace)})
             self.flags.add("get-empty")
             return
         h1 = self.heap.get_succeeding_event()
@@ -163,12 +194,26 @@ class SchedulerMachine(RuleBasedStateMachine):
         if self.trashed_nonmin_since_get:
             self.flags.add("get-after-nonmin-trash")
             self.trashed_nonmin_since_get = False
+        if self.twin is not None:
+            t1 = self.twin[0].get_succeeding_event()
+            t2 = self.twin[1].get_succeeding_event()
+            ties = sum(1 for t in self.model.values() if t == m)
+            if ties >= 2:
+                self.flags.add("twin-get-with-tie")
+            for name, a, b in (("heap", h1, t1), ("list", h2, t2)):
+                if a.index != b.index:
+                    raise Violation("stateful/unpickled-%s-differs" % name, "after the same operations the unpickled "
+                                    "%s scheduler returned %r, the original %r (%d live events share the minimal time)"
+                                    % (name, b, a, ties), {"trace": jsonable(self.trace)})
         self.last = m
         # the mediator trashes the returned handler (it is always in its own trash list)
         for idx in {h1.index, h2.index}:
             h = self.handlers[idx]
             self.heap.trash_event(h)
             self.lst.trash_event(h)
+            if self.twin is not None:
+                self.twin[0].trash_event(self.twin[2][idx])
+                self.twin[1].trash_event(self.twin[2][idx])
             del self.model[idx]
 
     @rule(keep_original=st.booleans())
@@ -190,11 +235,17 @@ class SchedulerMachine(RuleBasedStateMachine):
         idx = self._free(pick % 12)
         if idx is None:
             return
+        self._burn(idx, k)
+
+    def _burn(self, idx, k):
         self.trace.append(("burn", idx, k))
         # white-box: the state that 2^32-k trashes of this handler would have produced
         # (never lowered: lowering would revive stale entries, which no sequence of trashes can do)
         h = self.handlers[idx]
         self.heap._minimal_valid_counter[h] = max(self.heap._minimal_valid_counter.get(h, 0), 2 ** 32 - k)
+        if self.twin is not None:
+            th = self.twin[2][idx]
+            self.twin[0]._minimal_valid_counter[th] = max(self.twin[0]._minimal_valid_counter.get(th, 0), 2 ** 32 - k)
         self.flags.add("overflow-preset")
 
     @rule(n=st.integers(70, 300), frac=st.floats(0.0, 1.0))
@@ -258,20 +309,15 @@ def replay_machine(rec, args):
             m.trace.append(tuple(step))
             m._push(step[1], tuple(float(x) for x in step[2]))
         elif op == "trash":
-            idx = step[1]
-            m.trace.append(("trash", idx))
-            h = m.handlers[idx]
-            m.heap.trash_event(h)
-            m.lst.trash_event(h)
-            del m.model[idx]
+            m._trash_idx(step[1])
+        elif op == "fork_twin":
+            m.fork_twin()
         elif op == "get":
             m.get()
         elif op == "pickle":
             m.pickle_roundtrip(bool(step[1]) if len(step) > 1 else False)
         elif op == "burn":
-            m.trace.append(tuple(step))
-            h = m.handlers[step[1]]
-            m.heap._minimal_valid_counter[h] = max(m.heap._minimal_valid_counter.get(h, 0), 2 ** 32 - step[2])
+            m._burn(step[1], step[2])
         elif op == "burst":
             m.burst(step[1], step[2])
 
